@@ -96,7 +96,13 @@ class LiteDRAMAXI2NativeW(Module):
                 w_buffer_level.eq(w_buffer_level - 1)
             )
         ]
-        self.comb += can_write.eq(w_buffer.level > w_buffer_level)
+        # Number of beats held in w_buffer, counted here: a 1-deep stream.SyncFIFO is a plain Buffer whose
+        # `level` is a constant 0 (no write would ever be issued with buffer_depth = 1).
+        w_buffer_beats = Signal(max=buffer_depth + 2)
+        w_buffer_push  = Signal()
+        self.comb += w_buffer_push.eq(w_buffer.sink.valid & w_buffer.sink.ready)
+        self.sync += w_buffer_beats.eq(w_buffer_beats + w_buffer_push - w_buffer_dequeue)
+        self.comb += can_write.eq(w_buffer_beats > w_buffer_level)
 
         # Command ----------------------------------------------------------------------------------
         # Accept and send command to the controller only if:
